@@ -416,6 +416,27 @@ def measure_master(points):
                 del f
             except NameError:
                 pass
+            # a legal schedule: the enqueuing thread is held up right after handing the job to the master's queue, long enough for
+            # master, worker and the status message to finish before enqueue() goes on
+            _put = orch.job_queue.put
+
+            def slow_put(item, *a, **kw):
+                r = _put(item, *a, **kw)
+                time.sleep(0.3)
+                return r
+            orch.job_queue.put = slow_put
+            try:
+                for _ in range(2):
+                    hf = orch.enqueue(ok_cfg, return_future=True)
+                    try:
+                        hf.result(timeout=6)
+                        res["outcomes"]["result"] += 1
+                    except Exception as ex:  # noqa
+                        res["outcomes"]["held_up_unresolved" if type(ex).__name__ == "TimeoutError" else "exception"] = \
+                            res["outcomes"].get("held_up_unresolved" if type(ex).__name__ == "TimeoutError" else "exception", 0) + 1
+                    del hf
+            finally:
+                orch.job_queue.put = _put
             done = p
             time.sleep(0.5)         # let the master finish its iteration
             gc.collect()
@@ -450,24 +471,33 @@ def measure_failures(points):
         "context-processor-raises": [{"processor": "FloatValueDataSource", "parameters": {"value": 1.0}}, {"processor": HC.VerifFailingContextProcessor}],
         "operation-raises": [{"processor": "FloatValueDataSource", "parameters": {"value": 1.0}}, {"processor": "FloatDivideOperation", "parameters": {"divisor": 0.0}}],
         "unresolved-parameter": [{"processor": "FloatValueDataSource", "parameters": {"value": 1.0}}, {"processor": "FloatMultiplyOperation"}],
+        # configurations rejected when their nodes are built: a registered class that is no processor, a node without `processor`
+        "non-processor-class": [{"processor": "FloatValueDataSource", "parameters": {"value": 1.0}}, {"processor": "FloatSquareOperation"},
+                                {"processor": "PolynomialFittingModel"}],
+        "data-type-as-processor": [{"processor": "FloatValueDataSource", "parameters": {"value": 1.0}}, {"processor": "FloatDataType"}],
+        "node-without-processor": [{"processor": "FloatValueDataSource", "parameters": {"value": 1.0}}, {"parameters": {"factor": 2.0}}],
     }
     res = {"samples": {}, "status": "ok"}
     try:
         for kname, cfg in kinds.items():
             for way in ("fresh", "reused"):
-                reused = Pipeline([dict(c) for c in cfg], logger=lg) if way == "reused" else None
+                try:
+                    reused = Pipeline([dict(c) for c in cfg], logger=lg) if way == "reused" else None
+                except Exception:  # noqa - rejected when the Pipeline object is built: there is nothing to reuse
+                    continue
                 done, failed = 0, 0
                 for p in sorted(points):
                     for _ in range(p - done):
-                        pipe = reused or Pipeline([dict(c) for c in cfg], logger=lg)
+                        pipe = None
                         try:
+                            pipe = reused or Pipeline([dict(c) for c in cfg], logger=lg)
                             pipe.process(Payload(None, ContextType({"marker": HC.VerifRunMarker()})))
                         except Exception:  # noqa
                             failed += 1
                         del pipe
                     done = p
                     gc.collect()
-                    live = {"markers": 0, "contexts": 0}
+                    live = {"markers": 0, "contexts": 0, "pipelines": 0}
                     # what sits in a reused Pipeline's transport queue is the known residue F-C18-b (one published message per node
                     # per run, each holding its payload): accounted there, not here
                     qs = getattr(getattr(reused, "transport", None), "_queues", None) if reused is not None else None
@@ -480,6 +510,8 @@ def measure_failures(points):
                                 live["markers"] += 1
                             elif isinstance(o, ContextType):
                                 live["contexts"] += 1
+                            elif isinstance(o, Pipeline):
+                                live["pipelines"] += 1
                         except Exception:  # noqa
                             pass
                     res["samples"]["%s|%s|%d" % (kname, way, p)] = dict(live, failed=failed)
@@ -519,8 +551,8 @@ def failures_oracle(ck, thorough):
         if sb["failed"] != b:
             ck.corr_problem("failing-runs measurement: %s: %d of %d runs failed (all were expected to)" % (key, sb["failed"], b), "")
             continue
-        for what in ("markers", "contexts"):
-            if sb[what] - sa[what] >= max(3, (b - a) // 4):
+        for what in ("markers", "contexts", "pipelines"):
+            if sb.get(what, 0) - sa.get(what, 0) >= max(3, (b - a) // 4):
                 kname, way = key.split("|")
                 ck.fail_input("C18:failed-runs-leave-%s-alive:%s:%s" % (what, kname, way),
                               "objects of FAILED runs stay alive (%s, %s Pipeline): %d live %s after %d failed runs, %d after %d"
